@@ -82,6 +82,29 @@ def main(tier_):
                         c["meta"]["backend"], g["sysctl"], "sticky " if g["sticky"] else "", "world-writable" if g["ww"] else "not world-writable", g["dirUid"], g["linkUid"], g["caller"], g["pos"], got, want), c)
                 elif len(samples) < 4 and g["refuse"]:
                     samples.append(dict(case=g, backend=c["meta"]["backend"], library=list(got), kernel=list(want)))
+            if val == 1:
+                # the sysctl is read (and cached) at the first symlink lookup of a process: a failing system call during
+                # that first use must not turn the rule off -- neither for this lookup nor for the next one
+                gs = [x for x in gcases if x["sysctl"] == 1 and x["refuse"] and x["pos"] == "trailing"]
+                if gs:
+                    g = gs[0]
+                    tree, path = build_case(g, 0)
+                    feat = {"openat2": False, "psl": 1}
+                    two = [dict(op="resolve", path=path, euid=g["caller"]), dict(op="resolve", path=path, euid=g["caller"])]
+                    base = run_pv([dict(id="psl-fault-base", tree=tree, feat=feat, trace=True, raw=True, cold=True, calls=two)], jobs=1, tag="C15b")[0]
+                    sites = sorted({e["inj_i"] for e in base.get("events", []) if e.get("ev") == "sys" and "inj_i" in e and e.get("call") == 0})
+                    fcases = [dict(id="psl-fault|%d|%d" % (i, en), tree=tree, feat=feat, trace=True, raw=False, cold=True, calls=two, faults=[dict(call=0, i=i, errno=en)], meta=dict(g=g, i=i, errno=en))
+                              for i in sites for en in (24, 5)]
+                    fres = run_pv(fcases, jobs=8, tag="C15f")
+                    for c, r in zip(fcases, fres):
+                        rs = (r.get("out") or [{}])[0].get("results") or []
+                        stats["fault_cases"] += 1
+                        for j, x in enumerate(rs[:2]):
+                            o = lib_outcome(x)
+                            if o[0] == "ok":
+                                v.violation(dict(check="protected-symlinks-fault", call=j, errno=c["meta"]["errno"]),
+                                            "C15: emulated backend, sysctl=1, sticky world-writable directory owned by %d, link owned by %d, caller %d: after errno %d was injected into syscall #%d of the "
+                                            "process's first lookup, lookup #%d FOLLOWED the link (%s); the kernel refuses it with EACCES" % (g["dirUid"], g["linkUid"], g["caller"], c["meta"]["errno"], c["meta"]["i"], j + 1, o), c)
     finally:
         with open(SYSCTL, "w") as f:
             f.write(orig)
@@ -90,6 +113,6 @@ def main(tier_):
     cov = dict(states=gen["distinct"], transitions=gen["states"], traces_validated_against_impl=stats["cases"], samples=samples or [dict(note="no refusing case sampled")], evaluations=stats["cases"],
                distinct_nontrivial=len([g for g in gcases if g["sysctl"] == 1 and g["sticky"] and g["ww"]]),
                rule="TLC enumerates 2x2x3x3x3x3x2 = 648 combinations; all executed on both backends; non-trivial = sysctl on and directory sticky+world-writable (the rule can fire)",
-               exhaustive=True, design_invariant_violated=design["violated"], oracle_vs_kernel_mismatch=stats["oracle_vs_kernel_mismatch"], notes=v.notes[:5], build_s=round(build_s, 1))
+               exhaustive=True, first_use_fault_cases=stats["fault_cases"], design_invariant_violated=design["violated"], oracle_vs_kernel_mismatch=stats["oracle_vs_kernel_mismatch"], notes=v.notes[:5], build_s=round(build_s, 1))
     write_evidence("C15", tier_, "model_checking", cov, ASSUME, time.time() - t0, len(v.violations))
     return rc
